@@ -35,10 +35,9 @@ def signatures(max_formals: int) -> list[list[tuple[str, str]]]:
             rec(sig + [("OPT", nm)], 1, used + 1)
             rec(sig + [("STAR", nm)], 2, used + 1)
         if stage <= 2:
-            # keyword-only parameters need a preceding `*args` (a bare `*` is not represented)
-            if any(k == "STAR" for k, _ in sig):
-                rec(sig + [("NAMED", nm)], 2, used + 1)
-                rec(sig + [("NAMED_OPT", nm)], 2, used + 1)
+            # keyword-only parameters: after `*args`, or after a bare `*` (no ARG_STAR formal at all)
+            rec(sig + [("NAMED", nm)], 2, used + 1)
+            rec(sig + [("NAMED_OPT", nm)], 2, used + 1)
             rec(sig + [("STAR2", nm)], 3, used + 1)
 
     rec([], 0, 0)
@@ -47,7 +46,13 @@ def signatures(max_formals: int) -> list[list[tuple[str, str]]]:
 
 def sig_source(sig: list[tuple[str, str]]) -> str:
     ps = []
+    star_seen = False
     for k, n in sig:
+        if k == "STAR":
+            star_seen = True
+        if k in ("NAMED", "NAMED_OPT") and not star_seen:
+            ps.append("*")  # bare star: the following parameters are keyword-only
+            star_seen = True
         ps.append({"POS": n, "OPT": n + "=0", "STAR": "*" + n, "NAMED": n, "NAMED_OPT": n + "=0", "STAR2": "**" + n}[k])
     return "def f(" + ", ".join(ps) + "): pass"
 
@@ -252,10 +257,10 @@ def run(rep: Any, tier: str) -> None:
     alphabet = ACTUALS_QUICK if tier == "quick" else ACTUALS_THOROUGH
     max_actuals = 3
     rep.bounds.append(
-        f"K1: every valid signature of <= {maxf} parameters (positional, defaulted, *args, keyword-only after *args, **kwargs) x every syntactically valid call of <= {max_actuals} actuals from "
+        f"K1: every valid signature of <= {maxf} parameters (positional, defaulted, *args, keyword-only after *args or a bare *, **kwargs) x every syntactically valid call of <= {max_actuals} actuals from "
         f"{len(alphabet)} precise shapes (positional, keyword a/b/z, * of a tuple of fixed length, ** of a TypedDict with all keys required); the shapes are solver decisions, argument types are Any"
     )
-    rep.outside.append("K1: actuals of statically unknown length (*list, **dict), positional-only parameters, bare '*', ParamSpec, argument *types*")
+    rep.outside.append("K1: actuals of statically unknown length (*list, **dict), positional-only parameters, ParamSpec, argument *types*")
     parts = [([s], alphabet, max_actuals) for s in sigs]
     with mp.get_context("fork").Pool(14) as pool:
         results = pool.map(explore, parts, chunksize=1)
